@@ -512,9 +512,10 @@ def gen_histories(spec, tmpdir):
                      "v1": True},
                     {"platform": platform, "v1": True}]})
             # fault-free change followed by restarts (incl. another forced change)
-            cases.append({"platform": platform, "start": start, "steps": [
-                {"platform": platform, "force": force}, {"platform": platform},
-                {"platform": platform, "force": True}, {"platform": platform}]})
+            for link in (False, True):
+                cases.append({"platform": platform, "start": start, "link": link, "steps": [
+                    {"platform": platform, "force": force}, {"platform": platform},
+                    {"platform": platform, "force": True}, {"platform": platform}]})
     # sampled deeper histories
     extra = 60 if not thorough else 6000
     for _ in range(extra):
@@ -537,7 +538,8 @@ def gen_histories(spec, tmpdir):
                 st["crash"] = rng.choice(CRASH_POINTS)
             steps.append(st)
         steps.append({"platform": platform})
-        cases.append({"platform": platform, "start": start, "steps": steps})
+        cases.append({"platform": platform, "start": start, "steps": steps,
+                      "link": rng.random() < 0.3})
     mine = [c for i, c in enumerate(cases) if i % spec["n"] == spec["shard"]]
     if not thorough:
         # quick: all in-process cases, crash cases limited per shard
@@ -550,9 +552,16 @@ def gen_histories(spec, tmpdir):
 def run_history(acc, case, tmpdir):
     path = os.path.join(tmpdir, "pin.txt")
     devstate = os.path.join(tmpdir, "device.json")
-    for p in (path, devstate):
-        if os.path.exists(p):
+    real = os.path.join(tmpdir, "store", "pin-real.txt")
+    for p in (path, devstate, real):
+        if os.path.lexists(p):
             os.unlink(p)
+    if case.get("link"):
+        # the configured PIN file is a symbolic link into another directory (a mounted
+        # secrets volume): dangling when there is no PIN yet
+        os.makedirs(os.path.dirname(real), exist_ok=True)
+        os.symlink(real, path)
+        acc.count("histories_with_a_symlinked_pin_file")
     start = case["start"]
     device_pin = DEFAULT_PIN
     if start in ("present", "forced"):
